@@ -1,13 +1,12 @@
-(* C05 executable model.  The Stat algebra (MeanStat.new / merge / reduce / result,
-   SumStat.*, safe_div, the zero() of the built-in metrics) is translated on every run
-   from fedjax/core/metrics.py and fedjax/core/util.py (gen/Gen_metrics.v, gen/Gen_util.v).
-   Hand-written here: higher-rank statistics as equal-length lists with pointwise
-   lifting, metrics.evaluate_batch (vmap'ed per-example statistics, masked rows
-   replaced by zero() with a lazy `where`, reduce over the batch axis),
-   models.evaluate_model / ModelEvaluator (fold of merge over the batches starting
-   from zero()), and the correspondence predicate. *)
+(* C05 executable model.  Translated on every run: the Stat algebra (MeanStat.new / merge /
+   reduce / result, SumStat.*, the zero() of the built-in metrics: gen/Gen_metrics.v), safe_div
+   (gen/Gen_util.v), metrics.apply_mask and metrics.evaluate_batch (gen/Gen_metrics.v, section
+   batch_eval), models._evaluate_model_step / evaluate_model and the ModelEvaluator client functions
+   (gen/Gen_models.v).  Hand-written here: higher-rank statistics as equal-length lists with
+   pointwise lifting of the rank-0 operations (vzero / vmerge / vreduce / vresult), the
+   instantiation of the translated functions with them, and the correspondence predicate. *)
 From Coq Require Import ZArith QArith List Bool.
-From FV Require Import Common.ListX Common.Batch Common.CMonoid Common.NanQ gen.Gen_util gen.Gen_metrics.
+From FV Require Import Common.ListX Common.Batch Common.CMonoid Common.NanQ gen.Gen_util gen.Gen_metrics gen.Gen_models.
 Import ListNotations.
 Local Open Scope Q_scope.
 
@@ -44,32 +43,38 @@ Definition column (k : nat) (rows : list (list A)) : list A := map (fun r => nth
 Definition vreduce (K : nat) (rows : list (list A)) : list A :=
   map (fun k => sa_reduce alg (column k rows)) (seq 0 K).
 
-(* metrics.evaluate_batch: rows = vmap(evaluate_example); with a mask, rows whose bit is
-   false are replaced by zero() (jnp.where: lazy, the row's content is irrelevant) *)
-Definition evaluate_batch (K : nat) (mask : option (list bool)) (rows : list (list A)) : list A :=
-  vreduce K (match mask with Some m => mask_with (vzero K) m rows | None => rows end).
+(* a batch for one metric: the mask feature (None when the batch has no mask key) and the per-row
+   statistics vmap(evaluate_example) of ALL rows *)
+Definition batch_t : Type := (option (list bool) * list (list A))%type.
+Definition mask_of (b : batch_t) : list bool :=
+  match fst b with Some m => m | None => repeat true (length (snd b)) end.
 
-(* models.evaluate_model / ModelEvaluator: stat = zero(); for batch: stat = stat.merge(evaluate_batch(batch, mask)) *)
-Definition evaluate_model_stat (K : nat) (batches : list (list bool * list (list A))) : list A :=
-  fold_left (fun st b => vmerge st (evaluate_batch K (Some (fst b)) (snd b))) batches (vzero K).
-Definition evaluate_model (K : nat) (batches : list (list bool * list (list A))) : list NanQ.t :=
-  vresult (evaluate_model_stat K batches).
+(* the translated functions, instantiated with the rank-K operations *)
+Definition evaluate_batch (K : nat) (mask : option (list bool)) (rows : list (list A)) : list A :=
+  Gen_metrics.evaluate_batch (vzero K) (vreduce K) rows mask.
+Definition evaluate_model_stat (K : nat) (batches : list batch_t) : list A :=
+  Gen_models.evaluate_model_stat (vzero K) vmerge (vreduce K) batches.
+Definition evaluate_model (K : nat) (batches : list batch_t) : list NanQ.t :=
+  Gen_models.evaluate_model (vzero K) vmerge (vreduce K) vresult batches.
+Definition evaluator_client (K : nat) (batches : list batch_t) : list NanQ.t :=
+  Gen_models.evaluator_client (vzero K) vmerge (vreduce K) vresult batches.
 
 (* the property's reference: merge the single-example statistics one by one *)
 Definition merge_examples (K : nat) (examples : list (list A)) : list A := mfold vmerge (vzero K) examples.
-Definition real_examples (batches : list (list bool * list (list A))) : list (list A) :=
-  concat (map (fun b => strip (snd b) (fst b)) batches).
+Definition real_examples (batches : list batch_t) : list (list A) :=
+  concat (map (fun b => strip (snd b) (mask_of b)) batches).
 End Eval.
 
 (* ---------------- correspondence ---------------- *)
 (* which API produced the observation *)
 Inductive C05_api :=
-| ApiModel                      (* fedjax.evaluate_model / ModelEvaluator: results after folding all batches *)
-| ApiBatch (masked : bool).     (* metrics.evaluate_batch(metric, ex, pred, mask or None) on the first batch *)
+| ApiModel                      (* fedjax.evaluate_model: results after folding all batches *)
+| ApiEvaluator                  (* ModelEvaluator.evaluate_*: init / step / final of one client *)
+| ApiBatch.                     (* metrics.evaluate_batch(metric, ex, pred, mask or None) on the first batch *)
 
 Inductive C05_case :=
-| CMean (api : C05_api) (K : nat) (batches : list (list bool * list (list mstat)))
-| CSum (api : C05_api) (K : nat) (batches : list (list bool * list (list NanQ.t)))
+| CMean (api : C05_api) (K : nat) (batches : list (option (list bool) * list (list mstat)))
+| CSum (api : C05_api) (K : nat) (batches : list (option (list bool) * list (list NanQ.t)))
 (* the Stat algebra called directly *)
 | CNew (a w : NanQ.t)
 | CMerge (a1 w1 a2 w2 : NanQ.t)
@@ -86,18 +91,20 @@ Record C05_obs := mkO05 { o_tol : Q; o_result : list NanQ.t; o_stat : option (li
 
 Definition flat_mstats (l : list mstat) : list NanQ.t := flat_map (fun s => [fst s; snd s]) l.
 
-Definition first_batch {A} (alg : stat_alg A) K (masked : bool) (batches : list (list bool * list (list A))) : list A :=
+Definition first_batch {A} (alg : stat_alg A) K (batches : list (option (list bool) * list (list A))) : list A :=
   match batches with
-  | b :: _ => evaluate_batch alg K (if masked then Some (fst b) else None) (snd b)
+  | b :: _ => evaluate_batch alg K (fst b) (snd b)
   | [] => vzero alg K
   end.
 
 Definition C05_run (c : C05_case) : list NanQ.t * option (list NanQ.t) :=
   match c with
   | CMean ApiModel K bs => (evaluate_model mean_alg K bs, None)
-  | CMean (ApiBatch m) K bs => let s := first_batch mean_alg K m bs in (vresult mean_alg s, Some (flat_mstats s))
+  | CMean ApiEvaluator K bs => (evaluator_client mean_alg K bs, None)
+  | CMean ApiBatch K bs => let s := first_batch mean_alg K bs in (vresult mean_alg s, Some (flat_mstats s))
   | CSum ApiModel K bs => (evaluate_model sum_alg K bs, None)
-  | CSum (ApiBatch m) K bs => let s := first_batch sum_alg K m bs in (vresult sum_alg s, Some s)
+  | CSum ApiEvaluator K bs => (evaluator_client sum_alg K bs, None)
+  | CSum ApiBatch K bs => let s := first_batch sum_alg K bs in (vresult sum_alg s, Some s)
   | CNew a w => let s := meanstat_new a w in ([], Some [fst s; snd s])
   | CMerge a1 w1 a2 w2 => let s := meanstat_merge a1 w1 a2 w2 in ([meanstat_result (fst s) (snd s)], Some [fst s; snd s])
   | CReduce accums weights => let s := meanstat_reduce accums weights in ([meanstat_result (fst s) (snd s)], Some [fst s; snd s])
